@@ -86,6 +86,6 @@ def run(ctx):
     # adversarial peer: remote events and anti-messages sent in the new colour right before the peer reports its minimum, delivered
     # arbitrarily late; oracles: nothing dequeued below an adopted GVT, GVT monotone per thread, equal across threads per round
     from props import runlib
-    pagg = runlib.peer_matrix(ctx, 30, 800, salt=4)
+    pagg = runlib.peer_matrix(ctx, 30, 300, salt=4)
     if pagg:
         ctx.coverage["node_level_adversarial_peer"] = ctx.coverage.pop("peer_mode")
